@@ -14,7 +14,8 @@ def parse_dec(line):
     t = line.split()
     # x dec ip bytes code mnemonic len next_ip opcount k0 k1 k2 k3 r0 r1 r2 r3 base index scale disp seg ...
     return dict(code=t[4], mnemonic=t[5], opcount=int(t[8], 16), kinds=t[9:13], regs=t[13:17], base=t[17], index=t[18],
-                scale=int(t[19], 16), seg=t[21], imm8=int(t[22], 16))
+                scale=int(t[19], 16), seg=t[21], imm8=int(t[22], 16),
+                sx={16: int(t[27], 16), 32: int(t[28], 16), 64: int(t[29], 16)})
 
 
 def wf_mem(d):
@@ -22,6 +23,7 @@ def wf_mem(d):
         (d["base"] not in ("RIP", "EIP") or d["index"] == "None")
 
 
+XMM = set("XMM%d" % k for k in range(16))
 GPR16 = set("AX BX CX DX SI DI SP BP R8W R9W R10W R11W R12W R13W R14W R15W".split())
 
 
@@ -35,6 +37,10 @@ def operand_ok(spec, kind, reg, d, width_ctx, fam):
         return kind == "Memory" and wf_mem(d)
     if spec in ("RAX", "EAX", "AX", "AL", "CL"):
         return kind == "Register" and reg == spec
+    if spec == "xmm":
+        return kind == "Register" and reg in XMM
+    if spec == "xmmm128":
+        return (kind == "Register" and reg in XMM) or (kind == "Memory" and wf_mem(d))
     if spec == "1":
         # the one-bit shift encodings: iced delivers the count as an 8-bit immediate with value 1
         return kind == "Immediate8" and d["imm8"] == 1
@@ -43,7 +49,13 @@ def operand_ok(spec, kind, reg, d, width_ctx, fam):
     if fam == "Pushq":
         return kind == {"imm8": "Immediate8to64", "imm32": "Immediate32to64"}.get(spec)
     if spec == "imm8":
-        return kind == {64: "Immediate8to64", 32: "Immediate8to32", 16: "Immediate8to16", 8: "Immediate8"}.get(width_ctx)
+        if kind != {64: "Immediate8to64", 32: "Immediate8to32", 16: "Immediate8to16", 8: "Immediate8"}.get(width_ctx):
+            return False
+        if width_ctx in (16, 32, 64):
+            # the decoder's value is a sign-extended byte (hypothesis Sim of the ADC r/m, imm8 theorems)
+            v = d["sx"][width_ctx]
+            return v < 128 or v >= (1 << width_ctx) - 128
+        return True
     if spec == "imm16":
         return kind == "Immediate16"
     if spec == "imm32":
@@ -56,7 +68,12 @@ def operand_ok(spec, kind, reg, d, width_ctx, fam):
 
 
 SPECIAL = {"Call_rel32_64": ["rel32"], "Retnq": [], "Cdqe": [], "Cqo": [], "Cdq": [], "Cld": [], "Nopw": [], "Nopd": [],
-           "Nopq": [], "Endbr64": [], "Push_r64": ["r64"], "Pop_r64": ["r64"], "Lea_r64_m": ["r64", "m"], "Lea_r32_m": ["r32", "m"]}
+           "Nopq": [], "Endbr64": [], "Push_r64": ["r64"], "Pop_r64": ["r64"], "Lea_r64_m": ["r64", "m"], "Lea_r32_m": ["r32", "m"],
+           "Lea_r16_m": ["r16", "m"], "Cwd": [],
+           "Mov_RAX_moffs64": ["RAX", "m"], "Mov_EAX_moffs32": ["EAX", "m"], "Mov_AX_moffs16": ["AX", "m"], "Mov_AL_moffs8": ["AL", "m"],
+           "Mov_moffs64_RAX": ["m", "RAX"], "Mov_moffs32_EAX": ["m", "EAX"], "Mov_moffs16_AX": ["m", "AX"], "Mov_moffs8_AL": ["m", "AL"],
+           "Xorps_xmm_xmmm128": ["xmm", "xmmm128"], "Movups_xmm_xmmm128": ["xmm", "xmmm128"], "Movups_xmmm128_xmm": ["xmmm128", "xmm"],
+           "Movd_xmm_rm32": ["xmm", "rm32"], "Movd_rm32_xmm": ["rm32", "xmm"]}
 WIDTH = {"r64": 64, "rm64": 64, "RAX": 64, "r32": 32, "rm32": 32, "EAX": 32, "r16": 16, "rm16": 16, "AX": 16, "r8": 8, "rm8": 8, "AL": 8}
 
 
@@ -75,7 +92,7 @@ def check(code, dec_line):
     if code in ("Nop_rm16", "Nop_rm32", "Nop_rm64"):
         return True, ""
     specs = shape_of(code)
-    if not all(re.fullmatch(r"r64|r32|r16|r8|rm64|rm32|rm16|rm8|m|RAX|EAX|AX|AL|CL|imm8|imm16|imm32|imm64|rel32|1", p) for p in specs):
+    if not all(re.fullmatch(r"r64|r32|r16|r8|rm64|rm32|rm16|rm8|m|RAX|EAX|AX|AL|CL|imm8|imm16|imm32|imm64|rel32|1|xmm|xmmm128", p) for p in specs):
         return None
     if d["opcount"] != len(specs):
         return False, "operand count %d, theorem assumes %d" % (d["opcount"], len(specs))
